@@ -1730,8 +1730,12 @@ func buildResponses(e *expr.HTTPEndpointExpr, result *expr.AttributeExpr, viewed
 		}
 		count := len(responses)
 		if notag >= 0 && notag < count-1 {
-			// Make sure tagless response is last
-			responses[notag], responses[count-1] = responses[count-1], responses[notag]
+			// Make sure tagless response is last (and keep the tagged
+			// responses in the order of the design: the first matching
+			// tag wins)
+			tagless := responses[notag]
+			copy(responses[notag:], responses[notag+1:])
+			responses[count-1] = tagless
 		}
 	}
 	return responses
